@@ -158,6 +158,7 @@ def main(argv=None):
     ck = common.Check("C05", argv)
     common.setup_repo_import()
     ck.model("TransformMC", "TransformMC.cfg", workers=8)
+    gen.scramble_insertions(ck.rng)     # compression graphs by other histories / carriers (networkx, lazy complete class)
     recs = instances(ck)
     kinds = {}
     for r in recs:
